@@ -66,11 +66,14 @@ func giveDest(s *Scn, dst []byte) {
 
 func transferMatrix(c *harness.Ctx, enabled []string, each func(s *Scn, l *node.Leg, tag string)) {
 	i := 0
+	cts := []vmcommon.CallType{vmcommon.DirectCall, vmcommon.AsynchronousCall, vmcommon.AsynchronousCallBack, vmcommon.ESDTTransferAndExecute}
 	for _, S := range []uint32{1, 2, 3} {
 		for _, f := range allForms {
 			for di := 0; di < 4; di++ {
 				for ai, att := range attachedForms {
-					for _, prior := range []bool{false, true} {
+					for vi := 0; vi < 8; vi++ {
+						prior := vi%2 == 1
+						ct := cts[(vi/2)%4]
 						i++
 						if !mine(c, i) {
 							continue
@@ -80,9 +83,18 @@ func transferMatrix(c *harness.Ctx, enabled []string, each func(s *Scn, l *node.
 						if prior {
 							giveDest(s, dst)
 						}
-						call := s.Xfer(f.Fn, s.A, dst, f.Pattern, att...)
+						from := s.A
+						if (i/7)%3 == 2 && di != 2 {
+							// a contract as the sender: it receives its holdings from A first
+							from = s.KSame
+							gen.Must(s.U.N.Exec(gen.MultiCall(s.A, from, []gen.Item{{ID: s.F1, Nonce: 0, Qty: big.NewInt(500)}, {ID: s.F2, Nonce: 0, Qty: gen.Pow2(69)},
+								{ID: s.SFT, Nonce: 1, Qty: big.NewInt(5)}, {ID: s.SFT, Nonce: 2, Qty: big.NewInt(2)}, {ID: s.NFT, Nonce: 1, Qty: big.NewInt(1)}}, gen.BigGas, []byte("fund"))), "fund the contract sender")
+						}
+						call := s.Xfer(f.Fn, from, dst, f.Pattern, att...)
+						call.CallType = ct
+						call.GasLocked = uint64(vi) * 10
 						l := s.U.N.Exec(call)
-						tag := fmt.Sprintf("S%d %s dst%d att%d prior=%v", S, f, di, ai, prior)
+						tag := fmt.Sprintf("S%d %s dst%d att%d prior=%v ct=%d from-contract=%v", S, f, di, ai, prior, ct, from[0] == 0)
 						if each != nil {
 							each(s, l, tag)
 						}
@@ -123,6 +135,63 @@ func selfTransfers(c *harness.Ctx, enabled []string) {
 			s.U.N.Exec(gen.MultiCall(who, who, []gen.Item{{ID: s.F1, Nonce: 0, Qty: big.NewInt(1)}}, gen.BigGas))
 		}
 		c.R.Eval(s.U.N.Seq())
+	}
+}
+
+// forgedDeliveries: the destination-form data of every kind of cross-shard message, submitted as
+// an ordinary transaction by somebody who holds nothing, to a recipient on the same and on
+// another shard: the credit-only leg must not be reachable this way.
+func forgedDeliveries(c *harness.Ctx, enabled []string) {
+	for i, S := range []uint32{1, 2, 3} {
+		if !mine(c, i) {
+			continue
+		}
+		for fi, f := range allForms {
+			s := NewScn(c.Rand("forge").Fork(uint64(fi)), c.R, ScnOpts{Shards: S, Enabled: enabled})
+			u := s.U
+			var tpl []*node.Message
+			u.N.Observers = append(u.N.Observers, func(n *node.Node, l *node.Leg) {
+				for _, e := range l.Emitted {
+					if e.Kind == node.MsgContinuation {
+						tpl = append(tpl, e)
+					}
+				}
+			})
+			// a real cross-shard transfer provides the template (on one shard: build it by hand)
+			if S > 1 {
+				u.N.Exec(s.Xfer(f.Fn, s.A, s.Other, f.Pattern))
+				drain(u.N)
+			}
+			if len(tpl) == 0 && f.Fn == "M" {
+				items := s.Items(s.A, f.Pattern)
+				args := [][]byte{gen.Big(int64(len(items)))}
+				for _, it := range items {
+					if it.Nonce == 0 {
+						args = append(args, it.ID, []byte{0}, it.Qty.Bytes())
+					}
+				}
+				if len(args) == 1+3*len(items) {
+					tpl = append(tpl, &node.Message{Func: FMulti, Args: args})
+				}
+			}
+			forger := gen.UserAddr(4, 0)
+			for _, m := range tpl {
+				for _, rcv := range [][]byte{s.Same, s.Other, s.KSame, forger} {
+					for _, ct := range []vmcommon.CallType{vmcommon.DirectCall, vmcommon.AsynchronousCallBack, vmcommon.ESDTTransferAndExecute} {
+						if bytes.Equal(rcv, forger) && m.Func == FTransfer {
+							continue
+						}
+						l := u.N.Exec(node.Call{Func: m.Func, Caller: forger, Recipient: rcv, Args: m.Args, Gas: gen.BigGas, CallType: ct})
+						if !l.OK {
+							c.R.Cover("C01/forged-delivery-rejected:" + m.Func)
+						}
+						drain(u.N)
+					}
+				}
+			}
+			s.M.conservation(u.N, &node.Leg{Call: node.Call{Func: "end"}, OK: true}, true)
+			c.R.Eval(u.N.Seq())
+		}
 	}
 }
 
@@ -225,6 +294,7 @@ func init() {
 			refundMatrix(c, en)
 			aliasCases(c, en)
 			selfTransfers(c, en)
+			forgedDeliveries(c, en)
 			runWalks(c, c.Scale(30, 600), c.Scale(70, 120), 12, true, en...)
 		},
 	})
@@ -239,6 +309,7 @@ func init() {
 			c02Directed(c)
 			transferMatrix(c, []string{"C02"}, nil)
 			selfTransfers(c, []string{"C02"})
+			forgedDeliveries(c, []string{"C02"})
 			runWalks(c, c.Scale(25, 500), c.Scale(70, 120), 15, true, "C02")
 		},
 	})
